@@ -163,11 +163,12 @@ class Scenario:
             return sum(1 for _, f in self.tasks if not f.done()) > 1
         if c == "s":
             return loop.live_ready() > 0 or loop.due() > 0
+        # the clock moves only while the loop is idle ("timers fire on time")
         if c == "a":
             nt = loop.next_timer()
-            return nt is not None and nt > loop.time()
+            return loop.quiescent() and nt is not None and nt > loop.time()
         if c == "w":
-            return loop.next_timer() is not None
+            return loop.quiescent() and loop.next_timer() is not None
         return False
 
     def drain(self):
